@@ -643,7 +643,17 @@ pub fn run(c: &Case) -> Outcome {
             let a = tagged(&a0, true);
             macro_rules! csr_ty {
                 ($ty:ty) => {{
-                    let g = to_csr::<i32, $ty>(&a, |w| w);
+                    let mut g = to_csr::<i32, $ty>(&a, |w| w);
+                    if salt % 2 == 0 && n > 0 {
+                        // a state with history: junk edges, clear_edges, then the real edges again
+                        g.add_edge(0, (n - 1) as u32, -1);
+                        g.add_edge((n / 2) as u32, 0, -2);
+                        g.clear_edges();
+                        for &(x, y, t) in &a.edges {
+                            g.add_edge(x as u32, y as u32, t);
+                        }
+                        obs.label("Csr after clear_edges");
+                    }
                     let ids: Vec<u32> = (0..n as u32).collect();
                     let v = View::full(&a, ids.clone());
                     let w = "Csr";
